@@ -171,6 +171,26 @@ impl Gossip {
         // If there's no active handle for this topic we join the overlay from scratch.
         let inner = self.inner.read().await;
 
+        #[cfg(p2panda_p2panda_verif)]
+        p2panda_core::verif::point("gossip.stream.before_write_lock").await;
+
+        // Joining is serialised by holding the write lock until the new senders are stored: a
+        // concurrent call for the same topic waits here and then finds them, instead of joining
+        // a second time with a counter of its own (dropping either handle would then leave the
+        // overlay under the other one).
+        let mut senders = self.senders.write().await;
+        if let Some((to_gossip_tx, from_gossip_tx, guard)) = senders.get(&topic)
+            && let Some(guard) = guard.try_clone()
+        {
+            return Ok(GossipHandle::new(
+                topic,
+                max_message_size,
+                to_gossip_tx.clone(),
+                from_gossip_tx.clone(),
+                guard,
+            ));
+        }
+
         // This guard counts the number of active handles and subscriptions for this topic. Like
         // this we can determine if we can leave the overlay.
         let guard = TopicDropGuard::new(topic, inner.actor_ref.clone());
@@ -207,7 +227,6 @@ impl Gossip {
         #[cfg(p2panda_p2panda_verif)]
         p2panda_core::verif::point("gossip.stream.before_insert_senders").await;
 
-        let mut senders = self.senders.write().await;
         senders.insert(
             topic,
             (
